@@ -12,6 +12,13 @@ Deciding method
     must equal the single-threaded result (oracle), the observed class of the shared table must be
     one the model allows, and the model — run through the driver from the abstraction of the observed
     state — must predict the observed outcome (tie).
+  * call kinds (oracle; tie where the model applies): every family draws its builders, late builders, first publishers and
+    readers from three kinds of calls — a standard setting, an ALTERNATIVE setting (numbered above 1000 in SpaceGroupList:
+    its operation list in table order / reversed / shuffled, or an identifier only it carries: number, short name, full
+    name) and input that is not tabulated at all (same exception kind expected).  Every builder kind meets every reader kind
+    at strided pre-emption points of the builder and at EVERY point at which the builder executes a line event that a
+    standard-setting builder does not (code that runs only after a miss — found by aligning the recorded traces of the two
+    builder runs, `beyond`), and in the sweeps.
   * sweeps (oracle only; `run_sweep`): three parties — a late builder that found the table empty and is advanced one line at
     a time, a thread that completed a first-use lookup and published meanwhile, and readers that are pre-empted 1..k lines
     into their OWN lookup while the late builder executes one line (every position of the builder x every depth, both
@@ -88,6 +95,9 @@ def _worker(job):
             ops = ops[::-1]
         elif variant == "rotated":
             ops = ops[1:] + ops[:1]
+        elif variant == "permuted":     # a fixed pseudo-random order of the tabulated operations
+            import random as _random
+            _random.Random(number).shuffle(ops)
         return ops
 
     def make_call(c):
@@ -107,6 +117,9 @@ def _worker(job):
             return lambda: sgs.FindSpaceGroup(ops, shuffle=True)
         if kind == "FindDup":      # every operation twice: not the operation list of any setting (invalid input)
             ops = ops_of(c[1], "same") * 2
+            return lambda: sgs.FindSpaceGroup(ops)
+        if kind == "FindCut":      # all operations but the last: not tabulated at all (no group of that order; invalid input)
+            ops = ops_of(c[1], "same")[:-1]
             return lambda: sgs.FindSpaceGroup(ops)
         raise ValueError(c)
 
@@ -155,6 +168,12 @@ def _worker(job):
     reset()
     sgs.GetSpaceGroup(1)
     sgs.FindSpaceGroup(SGL[0].symop_list)
+    for _g in (SGL[-1], SGL[len(SGL) // 2]):      # and settings from the end / the middle of the table: whatever is prepared in stages is complete now
+        try:
+            sgs.FindSpaceGroup(_g.symop_list)
+            sgs.GetSpaceGroup(_g.short_name)
+        except ValueError:
+            pass
     full = {k: dict(t) for k, t in tables().items()}
     keyorder = {k: {key: i for i, key in enumerate(t)} for k, t in full.items()}
     calls = {}
@@ -189,6 +208,8 @@ def _worker(job):
             return "hash", [sgs._hashSymOpList(SGL[c[1]].symop_list)]
         if c[0] == "FindDup":
             return "hash", [sgs._hashSymOpList(ops_of(c[1], "same") * 2)]
+        if c[0] == "FindCut":
+            return "hash", [sgs._hashSymOpList(ops_of(c[1], "same")[:-1])]
         return "hash", [sgs._hashSymOpList(ops_of(c[1], c[2]))]
 
     def observe(threads_calls):
@@ -232,10 +253,13 @@ def _worker(job):
             self.allowed = 0    # line events the controller has allowed the thread to pass
             self.where = None
             self.started = False
+            self.rec = None     # list: (function, line) of every line event, when the schedule asks for the trace
 
         def _local(self, frame, event, arg):
             if event == "line" and not self.free:
                 self.nev += 1
+                if self.rec is not None:
+                    self.rec.append([frame.f_code.co_name, frame.f_lineno])
                 while self.nev > self.allowed and not self.free:
                     self.where = [frame.f_code.co_name, frame.f_lineno]
                     self.ctl.release()
@@ -300,6 +324,9 @@ def _worker(job):
     def run_schedule(s):
         reset()
         ths = [T(make_call(c), bool(tr)) for c, tr in zip(s["threads"], s["traced"])]
+        if s.get("trace"):
+            for t in ths:
+                t.rec = []
         obs, where = [], []
         for tid, n in s["segs"]:
             t = ths[tid]
@@ -342,8 +369,11 @@ def _worker(job):
             t.join(timeout=300)
             if t.is_alive():
                 raise RuntimeError("thread did not finish after all threads were released (deadlock in the code under test?)")
-        return {"results": [t.result for t in ths], "obs": obs, "where": where, "nev": [t.nev for t in ths],
+        out_ = {"results": [t.result for t in ths], "obs": obs, "where": where, "nev": [t.nev for t in ths],
                 "blocked": [bool(w and w[0] == "blocked") for w in where]}
+        if s.get("trace"):
+            out_["trace"] = [t.rec for t in ths]
+        return out_
 
     def run_sweep(s):
         """Reader pre-empted in the middle of its own lookup while a LATE builder makes its steps.
@@ -490,7 +520,17 @@ def _worker(job):
     out = []
     for s in job["schedules"]:
         out.append(run_sweep(s) if s.get("kind") == "sweep" else run_schedule(s))
-    return {"seq_first": seq_first, "seq_warm": seq_warm, "K": {k: len(v) for k, v in full.items()},
+    cat = None
+    if job.get("catalogue"):
+        # settings numbered above 1000 (alternative settings), in table order, each with the identifiers that lead to it
+        # and to no other setting in the complete single-threaded table
+        cat = []
+        for i, g in enumerate(SGL):
+            if g.number > 1000:
+                own = [k for k in (g.number, str(g.number), g.short_name, g.pdb_name) if full["id"].get(k) is g]
+                cat.append({"idx": i, "number": g.number, "short_name": g.short_name, "pdb_name": g.pdb_name, "own": own,
+                            "first_with_number": bynum[g.number] is g, "nops": len(g.symop_list)})
+    return {"catalogue": cat, "seq_first": seq_first, "seq_warm": seq_warm, "K": {k: len(v) for k, v in full.items()},
             "keypos": {cj: [keyorder[probe_key(c)[0]].get(x, -1) for x in probe_key(c)[1]] for cj, c in calls.items()},
             "runs": out}
 
@@ -504,6 +544,30 @@ if __name__ == "__main__":
 # ======================================================================================
 # harness side
 # ======================================================================================
+
+def catalogue():
+    """the settings numbered above 1000 of the tree under test, in table order (see the worker)"""
+    src = os.path.join(common.REPO, "src")
+    p = subprocess.run([common.PY, "-m", "harness.c19"], cwd=VERIF, input=json.dumps({"src": src, "schedules": [], "catalogue": 1}),
+                       capture_output=True, text=True, timeout=600)
+    if p.returncode != 0:
+        raise common.Broken("C19 worker failed: " + p.stderr[-1500:])
+    return json.loads(p.stdout)["catalogue"]
+
+
+def beyond(tr, ref):
+    """positions (number of line events executed) of a builder run with trace `tr` at which it is about to execute, or has just
+    executed, a line event that the reference run `ref` (a standard-setting builder) does not make at that place: the two
+    traces are aligned at both ends (common prefix, common suffix); one position of margin on either side"""
+    n = min(len(tr), len(ref))
+    a = 0
+    while a < n and tr[a] == ref[a]:
+        a += 1
+    z = 0
+    while z < n - a and tr[len(tr) - 1 - z] == ref[len(ref) - 1 - z]:
+        z += 1
+    return list(range(max(0, a - 1), min(len(tr), len(tr) - z + 1) + 1))
+
 
 def run_jobs(schedules, nproc=12):
     """Distribute schedules over fresh worker processes (round robin: the expensive schedules of one family are
@@ -621,27 +685,93 @@ def run(ck):
     readers_q = [["Get", "Fm-3m"], ["Get", 225], ["Get", "Ia3d"], ["FindIdx", -1]]   # last alias stored, last setting stored
     readers_t = readers_q + [["Find", 62, "same"], ["Is", "P 1 21/c 1"], ["Get", "no such group"], ["Find", 225, "reversed"]]
     readers = readers_q if quick and not wide else readers_t
+    # call kinds: standard setting / alternative setting (numbered above 1000: found by its operation list, or by an identifier
+    # that no standard setting carries) / not tabulated at all (same exception kind expected).  The alternative settings are
+    # taken from the table of the tree under test: last, middle, first quarter of them in table order and one by seed.
+    t_cat = time.time()
+    alts = catalogue()
+    t_cat = time.time() - t_cat
+    A = [a for a in alts if a["first_with_number"]] or alts
+    if not A:
+        raise common.Broken("C19: no setting numbered above 1000 in SpaceGroupList")
+    a_last, a_mid, a_q, a_rng = A[-1], A[len(A) // 2], A[len(A) // 4], A[rng.randrange(len(A))]
+
+    def ident(a, which):
+        """an identifier only this alternative setting carries: its number, short name or full name (else any of its own)"""
+        own = a["own"] or [a["number"]]
+        want_ = {"number": a["number"], "short": a["short_name"], "full": a["pdb_name"], "str": str(a["number"])}[which]
+        return want_ if want_ in own else own[0]
+
+    def mangle(x):
+        return (" " + x.lower() + " ") if isinstance(x, str) else x
+
+    KINDS = ("std", "alt", "unk")
+    kind_builders = {
+        "id": {"std": [["Get", 225]], "alt": [["Get", ident(a_last, "short")]] + ([] if quick else [["Get", ident(a_mid, "number")], ["Is", ident(a_rng, "full")]]),
+               "unk": [["Get", "no such group"]]},
+        "hash": {"std": [["Find", 225, "same"]], "alt": [["Find", a_last["number"], "same"]] + ([] if quick else [["Find", a_rng["number"], "reversed"]]),
+                 "unk": [["FindDup", 1]] + ([] if quick else [["FindCut", 225]])}}
+    kind_readers = {
+        "id": {"std": [["Get", "Fm-3m"], ["Get", 225], ["Is", " p 21/c "]],
+               "alt": [["Get", ident(a_mid, "number")], ["Get", ident(a_rng, "short")], ["Get", ident(a_last, "full")],
+                       ["Is", ident(a_q, "str")], ["Get", mangle(ident(a_q, "short"))]],
+               "unk": [["Get", "no such group"], ["Is", 999]]},
+        "hash": {"std": [["Find", 62, "reversed"], ["Find", 1, "same"], ["FindShuffle", 14, "rotated"]],
+                 "alt": [["FindIdx", -1], ["Find", a_mid["number"], "reversed"], ["FindShuffle", a_rng["number"], "permuted"],
+                         ["Find", a_q["number"], "same"]],
+                 "unk": [["FindCut", 225], ["FindDup", 1]]}}
+    kind_of = {}
+    for t_ in kind_builders:
+        for k_ in KINDS:
+            for c_ in kind_builders[t_][k_] + kind_readers[t_][k_]:
+                kind_of[json.dumps(c_)] = k_
+    kb_all = [b for t_ in ("id", "hash") for k_ in KINDS for b in kind_builders[t_][k_]]
 
     schedules, tags = [], []
     npts = {}
-    # late builders of the sweeps (short calls: few line events after the publication) and the lookups that are pre-empted
-    # d lines into themselves while the late builder makes one step; invalid input included (same exception kind expected)
+    # late builders of the sweeps (short calls: few line events after the publication; one per call kind) and the lookups that are
+    # pre-empted d lines into themselves while the late builder makes one step (10 per table: gcd(3, 10) = 1, see run_sweep);
+    # invalid input included (same exception kind expected)
     sweep_readers = {
         "id": [["Get", "Fm-3m"], ["Get", 225], ["Get", "Ia3d"], ["Is", " p 21/c "], ["Get", "p 1 21/c 1"], ["Get", "no such group"],
-               ["Is", "P 1 21/c 1"]],       # first / second / third candidate spelling, alias, integer, unknown identifier
+               ["Is", "P 1 21/c 1"],       # first / second / third candidate spelling, alias, integer, unknown identifier
+               ["Get", ident(a_mid, "number")], ["Get", mangle(ident(a_last, "short"))], ["Is", ident(a_rng, "full")]],
         "hash": [["Find", 1, "same"], ["Find", 14, "reversed"], ["FindShuffle", 62, "reversed"], ["FindIdx", -1], ["FindDup", 1],
-                 ["Find", 4, "same"], ["FindShuffle", 2, "rotated"]]}
-    sweep_first = {"id": ["Get", "Fm-3m"], "hash": ["Find", 62, "same"]}
+                 ["Find", 4, "same"], ["FindShuffle", 2, "rotated"],
+                 ["Find", a_mid["number"], "reversed"], ["FindShuffle", a_rng["number"], "permuted"], ["FindCut", 225]]}
+    sweep_firsts = {"id": {"std": ["Get", "Fm-3m"], "alt": ["Get", ident(a_q, "short")], "unk": ["Get", "no such group"]},
+                    "hash": {"std": ["Find", 62, "same"], "alt": ["Find", a_q["number"], "same"], "unk": ["FindCut", 225]}}
+    sweep_first = {t_: sweep_firsts[t_]["std"] for t_ in sweep_firsts}
     sweep_builders = {"id": [["Get", 225]] if quick else [["Get", 225], ["Is", " p 21/c "]],
                       "hash": [["Find", 1, "same"]] if quick else [["Find", 1, "same"], ["Find", 62, "reversed"]]}
-    pre = [{"threads": [b], "traced": [1], "segs": [[0, 10 ** 9]]} for b in id_builders + hash_builders]
-    pre_sw = [(t, b) for t in ("id", "hash") for b in sweep_builders[t]]
+    sweep_ref = {"id": ["Get", 225], "hash": ["Find", 1, "same"]}     # standard-setting late builders: reference traces
+    sweep_kind_builders = {"id": [["Get", ident(a_last, "short")], ["Get", "no such group"]],
+                           "hash": [["Find", a_last["number"], "same"], ["FindDup", 1]]}
+    solo = []
+    for b in id_builders + hash_builders + kb_all + [b_ for t_ in ("id", "hash") for b_ in sweep_kind_builders[t_] + [sweep_ref[t_]]]:
+        if b not in solo:
+            solo.append(b)
+    pre = [{"threads": [b], "traced": [1], "segs": [[0, 10 ** 9]], "trace": 1} for b in solo]
+    pre_sw = [(t, b) for t in ("id", "hash") for b in sweep_builders[t] + sweep_kind_builders[t]]
     pre += [{"kind": "sweep", "table": t, "builder": b, "first": None, "head": 0, "depths": [], "readers": [], "points": [],
              "profile": 1} for t, b in pre_sw]
-    _, pre_runs = run_jobs(pre, nproc=len(pre))
-    for b, r in zip(id_builders + hash_builders, pre_runs):
+    t_pre = time.time()
+    _, pre_runs = run_jobs(pre, nproc=min(16, len(pre)))
+    t_pre = time.time() - t_pre
+    trace_of = {}
+    for b, r in zip(solo, pre_runs):
         npts[json.dumps(b)] = r["nev"][0]
-    profile = {json.dumps(b): r for (t, b), r in zip(pre_sw, pre_runs[len(id_builders + hash_builders):])}
+        trace_of[json.dumps(b)] = r["trace"][0]
+    profile = {json.dumps(b): r for (t, b), r in zip(pre_sw, pre_runs[len(solo):])}
+    # line events a builder makes beyond those of a standard-setting builder of the same table (code that runs only after a miss)
+    beyond_of = {}
+    for t_ in ("id", "hash"):
+        ref_ = trace_of[json.dumps(kind_builders[t_]["std"][0])]
+        for k_ in ("alt", "unk"):
+            for b in kind_builders[t_][k_]:
+                beyond_of[json.dumps(b)] = beyond(trace_of[json.dumps(b)], ref_)
+        for b in sweep_kind_builders[t_]:
+            beyond_of["sweep:" + json.dumps(b)] = beyond(trace_of[json.dumps(b)], trace_of[json.dumps(sweep_ref[t_])])
     # builder x reader, every pre-emption point of the builder
     for b in id_builders + hash_builders:
         N = npts[json.dumps(b)]
@@ -657,11 +787,47 @@ def run(ck):
             for p in pts:
                 schedules.append({"threads": [b, r], "traced": [1, 0], "segs": [[0, p], [1, -1], [0, -1]]})
                 tags.append(("point", b, r, p))
+    # call kinds: every builder kind x every reader kind of the same table.  Points: every STRIDE-th pre-emption point of the
+    # builder, and EVERY point at which the builder executes a line event that a standard-setting builder does not (code that
+    # runs only after a miss; from the recorded traces); the reader at the j-th point is call j mod n of its kind's list
+    # (strides are primes: the build loops make 3 / 5 line events per setting, a stride sharing a factor with that would always
+    # stop at the same line of the loop; a fingerprint-table schedule costs 16 times an identifier-table schedule)
+    STRIDES = ({"id": 7, "hash": 23} if not wide else {"id": 3, "hash": 7}) if quick else {"id": 3, "hash": 5}
+    have = set((json.dumps(sc["threads"]), sc["segs"][0][1]) for sc in schedules)
+    kinds_cov = []
+    for t_ in ("id", "hash"):
+        for bk in KINDS:
+            for b in kind_builders[t_][bk]:
+                N = npts[json.dumps(b)]
+                STRIDE = STRIDES[t_]
+                extra_pts = [p for p in beyond_of.get(json.dumps(b), []) if 0 <= p <= N]
+                for rk in KINDS:
+                    rl = kind_readers[t_][rk]
+                    pts = sorted(set(range(0, N + 1, STRIDE)) | set(extra_pts) | {N})
+                    n_ = 0
+                    for j, p in enumerate(pts):
+                        r = rl[j % len(rl)]
+                        if (json.dumps([b, r]), p) in have:
+                            continue
+                        have.add((json.dumps([b, r]), p))
+                        schedules.append({"threads": [b, r], "traced": [1, 0], "segs": [[0, p], [1, -1], [0, -1]]})
+                        tags.append(("point", b, r, p))
+                        n_ += 1
+                    kinds_cov.append({"table": t_, "builder": b, "builder_kind": bk, "reader_kind": rk, "reader_calls": rl,
+                                      "line_events_of_builder": N, "stride": STRIDE,
+                                      "points_beyond_standard_builder": [extra_pts[0], extra_pts[-1], len(extra_pts)] if extra_pts else [],
+                                      "schedules": n_})
     # builder / builder pairs: both traced, two switches
     pair_calls = [(["Get", 225], ["Get", "Fm-3m"]), (["Find", 225, "same"], ["Find", 62, "same"]), (["Get", "Pnma"], ["Is", 225])]
+    kind_pairs = [(kind_builders[t_][ka][0], kind_readers[t_][kb][i_ % len(kind_readers[t_][kb])])
+                  for t_ in ("id", "hash") for i_, (ka, kb) in enumerate((ka_, kb_) for ka_ in KINDS for kb_ in KINDS) if (ka, kb) != ("std", "std")]
+    pair_calls_t = pair_calls + kind_pairs
     npairs = (240 if wide else 60) if quick else 1500
-    for _ in range(npairs):
-        a, b = pair_calls[0] if quick else pair_calls[rng.randrange(len(pair_calls))]
+    for i_ in range(npairs):
+        if quick:
+            a, b = pair_calls[0] if i_ % 2 == 0 else kind_pairs[(i_ // 2) % len(kind_pairs)]
+        else:
+            a, b = pair_calls_t[rng.randrange(len(pair_calls_t))]
         Na = npts.get(json.dumps(a)) or npts[json.dumps(id_builders[0])]
         p = rng.choice([rng.randrange(Na + 1), rng.randrange(0, 8), Na - rng.randrange(0, 12)])
         q = rng.choice([rng.randrange(Na + 1), rng.randrange(0, 8), Na - rng.randrange(0, 12)])
@@ -669,9 +835,15 @@ def run(ck):
         tags.append(("pair", a, b, (p, q)))
     # windows: both threads parked near the end of their build (around the publication step and the
     # `in` / subscript pair of the lookup), then the first advances k lines, the second finishes
-    for a, b in ([(["Get", 225], ["Get", "Fm-3m"]), (["Find", 225, "same"], ["Find", 62, "same"])]):
+    # (pairs of the other call kinds: a smaller neighbourhood in the quick tier)
+    kind_win = [(kind_builders[t_][ka][0], kind_readers[t_][kb][-1]) for t_ in ("id", "hash")
+                for ka, kb in ((("alt", "alt"), ("unk", "alt"), ("alt", "std"), ("alt", "unk")) if t_ == "id" or not quick else
+                               (("alt", "alt"), ("unk", "alt")))]
+    for a, b in ([(["Get", 225], ["Get", "Fm-3m"]), (["Find", 225, "same"], ["Find", 62, "same"])] + kind_win):
         Na = npts[json.dumps(a)]
         back = 7 if quick else 12
+        if quick and (a, b) in kind_win:
+            back = 4 if a[0] in ("Get", "Is") else 3
         for dp in range(back):
             for dq in range(back):
                 for k in (1, 2, 3) if quick else (1, 2, 3, 4, 5):
@@ -681,10 +853,11 @@ def run(ck):
     # stale guard: a second builder is parked just after it found the table empty (first lines of its call / of the
     # build function); the first thread builds, publishes and is parked around its own lookup; then the second one
     # advances a few lines (anything it does to the shared table on entering the build happens now)
-    for a, b in ([(["Get", 225], ["Get", "Fm-3m"]), (["Find", 225, "same"], ["Find", 62, "same"])]):
+    for a, b in ([(["Get", 225], ["Get", "Fm-3m"]), (["Find", 225, "same"], ["Find", 62, "same"])] + kind_win):
         Na = npts[json.dumps(a)]
-        for q in range(1, 7 if quick else 10):
-            for dp in range(0, 6 if quick else 10):
+        small = (4 if a[0] in ("Get", "Is") else 3) if quick and (a, b) in kind_win else 0
+        for q in range(1, (1 + small if small else 7) if quick else 10):
+            for dp in range(0, (small if small else 6) if quick else 10):
                 for k in (1, 2, 4) if quick else (1, 2, 3, 4, 6):
                     schedules.append({"threads": [a, b], "traced": [1, 1],
                                       "segs": [[1, q], [0, Na - dp], [1, k], [0, -1], [1, -1]]})
@@ -706,11 +879,20 @@ def run(ck):
     early_heads = (1, 2, 3, 4) if quick else (1, 2, 3, 4, 5, 6)
     sweep_cov = {}
     HEAD = 8
+    SW_STRIDE = 7 if quick else 2
     for t in ("id", "hash"):
-        for b in sweep_builders[t]:
+        for b in sweep_builders[t] + sweep_kind_builders[t]:
             pr = profile[json.dumps(b)]
             N = pr["nev"][0]
-            pts = list(range(HEAD, N))        # every position of the late builder from `head` to its last line
+            of_kind = b not in sweep_builders[t]
+            if of_kind:
+                # late builder of another call kind: every SW_STRIDE-th position, and every position at which it executes a
+                # line event that the standard-setting late builder does not make
+                extra_pts = [p for p in beyond_of["sweep:" + json.dumps(b)] if HEAD <= p < N]
+                pts = sorted(set(range(HEAD, N, SW_STRIDE)) | set(extra_pts))
+            else:
+                extra_pts = []
+                pts = list(range(HEAD, N))        # every position of the late builder from `head` to its last line
             per = 150
             nsch = 0
             for i in range(0, len(pts), per):
@@ -723,13 +905,29 @@ def run(ck):
                                   "depths": depths, "readers": sweep_readers[t], "points": list(range(h, min(N, h + 16)))})
                 tags.append(("sweep", b, None, ("early", h, h, h + 15)))
                 nsch += 1
-            sweep_cov[json.dumps(b)] = {"table": t, "late_builder": b, "first_publisher": sweep_first[t], "line_events_of_builder": N,
-                                        "builder_alone_changes_table_at": pr["mut"][:6], "positions_main": [HEAD, N - 1, len(pts)],
+            # first publisher of another kind (alternative setting, not tabulated): the late builder is parked right after its
+            # emptiness test; readers under its first steps and under its last 40 (its publication and its own lookup)
+            for h, fk in ((1, "alt"), (2, "unk")):
+                schedules.append({"kind": "sweep", "table": t, "builder": b, "first": sweep_firsts[t][fk], "head": h,
+                                  "depths": depths, "readers": sweep_readers[t],
+                                  "points": sorted(set(range(h, min(N, h + 8))) | set(range(max(h, N - 40), N)))})
+                tags.append(("sweep", b, None, ("first-" + fk, h, h, N - 1)))
+                nsch += 1
+            sweep_cov[json.dumps(b)] = {"table": t, "late_builder": b, "late_builder_kind": kind_of.get(json.dumps(b), "std"),
+                                        "first_publisher": sweep_first[t], "line_events_of_builder": N,
+                                        "other_first_publishers": [sweep_firsts[t]["alt"], sweep_firsts[t]["unk"]],
+                                        "builder_alone_changes_table_at": pr["mut"][:6], "positions_main": [pts[0], pts[-1], len(pts)],
+                                        "positions_beyond_standard_builder": [extra_pts[0], extra_pts[-1], len(extra_pts)] if extra_pts else [],
                                         "early_heads": list(early_heads), "positions_early": len(early_heads) * 16, "schedules": nsch,
                                         "reader_depths": [depths[0], depths[-1]], "reader_calls": sweep_readers[t]}
 
+    fam_count = {}
+    for tg in tags:
+        k_ = "%s/%s/%s" % (tg[0], "hash" if tg[1][0].startswith("Find") else "id", kind_of.get(json.dumps(tg[1]), "std"))
+        fam_count[k_] = fam_count.get(k_, 0) + 1
+    ck.coverage["schedules_by_family_table_builder_kind"] = fam_count
     t0 = time.time()
-    meta, runs = run_jobs(schedules, nproc=14)
+    meta, runs = run_jobs(schedules, nproc=16)
     # the sweeps have their own verdict (below); the segment schedules go on as before
     sweeps = [(s_, tg, r) for s_, tg, r in zip(schedules, tags, runs) if tg[0] == "sweep"]
     keep = [i for i, tg in enumerate(tags) if tg[0] != "sweep"]
@@ -756,8 +954,9 @@ def run(ck):
         schedules += [e[0] for e in extra]
         tags += [e[1] for e in extra]
         runs += r2
-    ck.notes.append("%d schedules on the real code in %.1fs (%d of them sweeps); pre-emption points per builder: %r; K=%r" % (
-        nsched_all + len(extra), time.time() - t0, len(sweeps), npts, meta["K"]))
+    ck.notes.append("%d schedules on the real code in %.1fs (%d of them sweeps; table of alternative settings %.1fs, %d solo / profile runs %.1fs); "
+                    "pre-emption points per builder: %r; K=%r" % (
+                        nsched_all + len(extra), time.time() - t0, len(sweeps), t_cat, len(pre), t_pre, npts, meta["K"]))
 
     # verdict per run -----------------------------------------------------------------
     lines, line_idx = [], {}
@@ -928,10 +1127,22 @@ def run(ck):
         "every line event inside GetSpaceGroup/FindSpaceGroup/IsSpaceGroupIdentifier/_buildSGLookupTable/_getSGHashLookupTable; at each point an "
         "untraced reader performs a complete lookup, then the builder resumes (quick: every point of the identifier-table builder x its 2 readers and of "
         "the fingerprint-table builder x its reader, every 17th point for readers of the other table, 60 two-switch builder/builder schedules). "
+        "Call kinds: builders, late builders, first publishers and readers are of three kinds - standard setting; alternative setting (numbered "
+        "above 1000 in SpaceGroupList, taken from the table of the tree under test: last, middle, first quarter in table order and one by seed; "
+        "FindSpaceGroup with its operations in table order / reversed / pseudo-randomly permuted / shuffle=True, GetSpaceGroup / "
+        "IsSpaceGroupIdentifier with an identifier only that setting carries: number, number as text, short name, full name, case-mangled short name); "
+        "not tabulated at all (every operation twice, all operations but the last, unknown identifier: same exception kind expected). Every builder "
+        "kind x every reader kind of the same table (reader = call j mod n of its kind's list at the j-th point): every %d-th (identifier table) / "
+        "%d-th (fingerprint table) pre-emption point of the builder plus EVERY point at which the builder is about to execute or has just executed a "
+        "line event that the standard-setting builder does not make there (traces of the two solo runs aligned at both ends: code that runs only "
+        "after a miss); the same kinds in the two-switch pairs (every second one), in smaller window / stale-guard neighbourhoods, and in the sweeps: "
+        "late builders of the alternative and not-tabulated kind at every %d-th position plus every position beyond the standard late builder's trace; "
+        "two more sweeps per late builder with a first publisher of the alternative / not-tabulated kind (builder parked right after its emptiness "
+        "test; readers under its first 8 and last 40 steps); the reader rotation of the sweeps has 10 calls per table with all three kinds. "
         "Sweeps (reader pre-empted in the middle of its own lookup while a LATE builder publishes; both tables): a traced builder that found the "
         "table empty is parked `head` lines in, another thread completes a first-use lookup and publishes, then the late builder is advanced one "
-        "line at a time; at each covered position a batch of reader threads each begin a lookup (7 calls per table in rotation: every candidate "
-        "spelling, alias, integer, invalid input / same, reversed, shuffled, doubled operation lists) and are parked after d = %d..%d of their own "
+        "line at a time; at each covered position a batch of reader threads each begin a lookup (10 calls per table in rotation: every candidate "
+        "spelling, alias, integer, invalid input, identifiers of alternative settings / same, reversed, shuffled, permuted, doubled, truncated operation lists) and are parked after d = %d..%d of their own "
         "line events, the builder executes exactly one line, the readers are resumed deepest first and every result is compared with the "
         "single-threaded reference (same setting, same exception kind); if the step left the table empty one more complete lookup republishes. "
         "Positions covered: every position of the late builder from head = 8 (inside its build) to its last line event, plus the first 16 positions "
@@ -940,7 +1151,16 @@ def run(ck):
         "A failing lookup is re-run as a three-thread segment schedule [builder head lines | first publisher complete | builder to the position | "
         "reader d lines | builder 1 line | reader to the end] and reported with that schedule. "
         "evaluations = segment schedules + reader lookups of the sweeps (one per position x depth). distinct_nontrivial = distinct (kind, calls, "
-        "observed table classes, source line of the pre-emption point) + distinct (late builder, line at which a reader was parked)" % (depths[0], depths[-1]))
+        "observed table classes, source line of the pre-emption point) + distinct (late builder, line at which a reader was parked)" % (
+            STRIDES["id"], STRIDES["hash"], SW_STRIDE, depths[0], depths[-1]))
+    ck.coverage["call_kinds"] = {
+        "alternative_settings_in_table": len(alts),
+        "alternative_settings_used": [{k_: a_[k_] for k_ in ("idx", "number", "short_name", "pdb_name", "own", "nops")} for a_ in (a_last, a_mid, a_q, a_rng)],
+        "builders": kind_builders, "readers": kind_readers, "sweep_late_builders_of_other_kinds": sweep_kind_builders,
+        "sweep_first_publishers": sweep_firsts, "window_and_staleguard_pairs": [list(x) for x in kind_win],
+        "two_switch_pairs": [list(x) for x in kind_pairs],
+        "single_threaded_results": {cj: meta["seq_first"][cj] for cj in sorted(kind_of) if cj in meta["seq_first"]},
+        "point_schedules": kinds_cov}
     ck.coverage["classes_observed"] = {t: sorted(v) for t, v in classes_seen.items()}
     ck.coverage["samples"] = [
         {"schedule": schedules[0], "results": runs[0]["results"], "obs": runs[0]["obs"][0]},
@@ -959,7 +1179,10 @@ def run(ck):
                        "(after 1..14 of its line events; 1..20 thorough) and one line of the late builder in between; several readers parked at "
                        "different depths share each builder step and are resumed deepest first; a reader pre-empted twice, or two late builders "
                        "stepping alternately under one reader, are not enumerated (the Lean theorems cover them for the publish protocol only)",
-                       "sweeps: the reader call at (position p, depth d) is call (p + 3 d) mod 7 of the table's list, not all 7 at every pair"]
+                       "sweeps: the reader call at (position p, depth d) is call (p + 3 d) mod 10 of the table's list, not all 10 at every pair",
+                       "call kinds: builder kind x reader kind pairs other than the original ones are exercised at strided pre-emption points (every point "
+                       "only where the builder's trace leaves that of the standard-setting builder); one representative call per builder kind in the "
+                       "quick tier; the alternative settings used are 4 of the settings numbered above 1000 (last, middle, first quarter, one by seed)"]
 
 
 def replay(path):
